@@ -79,3 +79,28 @@ def unit_open():
 
 def perm(n):
     return st.permutations(list(range(n)))
+
+
+REL_OFFSETS = [1e-12, 1e-11, 1e-10, 5e-10, 1e-9, 5e-9, 1e-8, 1e-7, 1e-6, 1e-5]
+
+
+def rel_near(points, lo=-math.inf, hi=math.inf, offsets=REL_OFFSETS):
+    """One of `points` moved by a small RELATIVE offset (1e-12 .. 1e-5, either sign): interior windows next to
+    round values, which neither the value itself nor its +-ulp neighbours reach (tolerance slips such as isclose)."""
+    points = [float(p) for p in points]
+    return st.builds(
+        lambda p, d, s: clamp(p * (1.0 + s * d) if p != 0.0 else s * d, lo, hi),
+        st.sampled_from(points),
+        st.sampled_from(list(offsets)),
+        st.sampled_from([-1.0, 1.0]),
+    )
+
+
+def abs_near(points, widths, lo=-math.inf, hi=math.inf):
+    """One of `points` moved by t * width, t uniform in (-1, 1), for each absolute width (unit mix-ups in tolerances)."""
+    points = [float(p) for p in points]
+    return st.builds(lambda p, w, t: clamp(p + t * w, lo, hi), st.sampled_from(points), st.sampled_from(list(widths)), st.floats(-1.0, 1.0))
+
+
+# sizes just beyond typical chunk / block / buffer lengths (a tail that a block loop can drop)
+CHUNK_SIZES = [4097, 8193, 65537, 2**17 + 3001, 2**20 + 4097]
